@@ -47,12 +47,34 @@ class C11(Prop):
         out = []
         for typ in G.TYPES:
             out += [self._case(rng, typ) for _ in range(n)]
-        return out
+        # the same coordinate list read as different geometry types, one after the other with the same buffers (the result
+        # of buffering must depend on the type, not only on the numbers): MultiPoint then LineString, MultiLineString then
+        # Polygon, and the reverse orders; the earlier call is part of the case (`before`), so a replay reproduces it
+        twins = []
+        small = lambda: (rng.choice([Fraction(1, 64), Fraction(1, 16), Fraction(1, 4)]), rng.choice([Fraction(1, 4), Fraction(1), Fraction(2)]))
+        for _ in range(max(8, n // 10)):
+            c = self._case(rng, "LineString")
+            tb, fb = small()
+            c.update(tb=tb, fb=fb, tb2=tb + Fraction(1, 4), fb2=fb + 1)
+            mp = dict(c, kind="MultiPoint", g={"type": "MultiPoint", "coordinates": c["g"]["coordinates"]})
+            twins += [dict(c, before=mp["g"])] if rng.random() < 0.7 else [dict(mp, before=c["g"])]
+            # an open outline (soundevent polygons need not repeat the first point) that also is a valid multi-line
+            t0, f0 = Fraction(rng.randint(0, 8)), Fraction(rng.randint(0, 30))
+            w, h = Fraction(rng.randint(2, 8)), Fraction(rng.randint(8, 30))
+            ring = [[t0, f0], [t0 + w / 2, f0 + h], [t0 + w, f0 + h], [t0 + w, f0]]
+            tb, fb = small()
+            base = {"tb": tb, "fb": fb, "tb2": tb + Fraction(1, 4), "fb2": fb + 1}
+            ml = dict(base, kind="MultiLineString", g={"type": "MultiLineString", "coordinates": [ring]})
+            pg = dict(base, kind="Polygon", g={"type": "Polygon", "coordinates": [ring]})
+            twins += [dict(pg, before=ml["g"])] if rng.random() < 0.7 else [dict(ml, before=pg["g"])]
+        return out + twins
 
     def run(self, c):
         import shapely
         from soundevent.geometry import buffer_geometry, compute_bounds, geometry_to_shapely
 
+        if c.get("before"):  # history: another geometry with the same numbers was buffered just before
+            guarded(buffer_geometry, G.build(c["before"]), time_buffer=float(c["tb"]), freq_buffer=float(c["fb"]))
         g = G.build(c["g"])
         out = {"norm": G.from_impl(g)}
         r = guarded(buffer_geometry, g, time_buffer=float(c["tb"]), freq_buffer=float(c["fb"]))
